@@ -20,7 +20,51 @@ import (
 	"verifharness/hk"
 )
 
-func init() { hk.Register("c03", Run) }
+func init() {
+	hk.Register("c03", Run)
+	hk.Register("c03sync", RunSync)
+}
+
+// markFd: when set (runner c03sync, executed under strace), BuildHistory brackets every API call with a marker write
+// "VERIFMARK <case> <op> B|A" so that the syscall log shows which pwrite64/fsync happened before the call returned.
+var markFd *os.File
+var markCase = -1
+
+func mark(op int, what string) {
+	if markFd != nil {
+		_, _ = markFd.Write([]byte(fmt.Sprintf("VERIFMARK %d %d %s\n", markCase, op, what)))
+	}
+}
+
+// RunSync only runs the history through the real writer (with markers); the observation comes from the strace log.
+func RunSync(raw json.RawMessage) (any, error) {
+	var c Case
+	if err := json.Unmarshal(raw, &c); err != nil {
+		return nil, err
+	}
+	if markFd == nil {
+		f, err := os.OpenFile("/dev/null", os.O_WRONLY, 0)
+		if err != nil {
+			return nil, err
+		}
+		markFd = f
+	}
+	markCase++
+	if c.Big > 0 {
+		return map[string]int{"n": 0}, nil
+	}
+	if c.Bufsz != 0 {
+		old := nbs.VerifC03SetBuffSize(c.Bufsz)
+		defer nbs.VerifC03SetBuffSize(old)
+	}
+	mark(-1, "S")
+	h, err := BuildHistory(c.Ops, c.Maxnovel)
+	mark(-1, "E")
+	if err != nil {
+		return nil, err
+	}
+	return map[string]int{"n": len(h.Ops)}, nil
+}
 
 type Op struct {
 	K    string `json:"k"` // "chunk" (data, compressed by the real code) | "raw" (addr, full) | "commit" (root, ts)
@@ -34,7 +78,8 @@ type Op struct {
 // Mut is a damage description. The position is either absolute (At) or relative to the start of the
 // record written by op number Rec (Rec == len(ops) means the end of the journal) plus D.
 type Mut struct {
-	K     string `json:"k"` // trunc | zero | tail (bytes appended after the cut) | xor (bytes = masks) | none
+	K     string `json:"k"` // trunc | zero | tail (bytes appended after the cut) | xor (bytes = masks) | crash (= trunc, after op Op) | none
+	Op    int    `json:"op,omitempty"`
 	Rec   *int   `json:"rec,omitempty"`
 	D     int    `json:"d,omitempty"`
 	At    *int   `json:"at,omitempty"`
@@ -92,6 +137,7 @@ type MutOut struct {
 	N     int    `json:"n"`
 	Bytes []int  `json:"bytes"`
 	X     int    `json:"x"`
+	Op    int    `json:"op"`
 	Ro    bool   `json:"ro"`
 	Res   Res    `json:"res"`
 }
@@ -172,8 +218,9 @@ func BuildHistory(ops []Op, maxnovel int) (*Hist, error) {
 		return nil, err
 	}
 	h := &Hist{}
-	for _, op := range ops {
+	for opi, op := range ops {
 		var o OpOut
+		mark(opi, "B")
 		off, buffered, _, _, _, _, _ := w.State()
 		o.Start = off + int64(buffered)
 		var e error
@@ -205,6 +252,7 @@ func BuildHistory(ops []Op, maxnovel int) (*Hist, error) {
 			return nil, fmt.Errorf("unknown op kind %q", op.K)
 		}
 		o.Err = e != nil
+		mark(opi, "A")
 		off, buffered, _, _, _, _, _ = w.State()
 		o.End = off + int64(buffered)
 		if st, serr := os.Stat(path); serr == nil {
@@ -252,7 +300,7 @@ func ResolveAt(h *Hist, rec *int, d int, at *int) int {
 // ApplyMut damages a journal image.
 func ApplyMut(j []byte, k string, at, n int, bs []int, x int) []byte {
 	switch k {
-	case "trunc":
+	case "trunc", "crash":
 		return append([]byte{}, j[:at]...)
 	case "zero":
 		return append(append([]byte{}, j[:at]...), make([]byte, n)...)
@@ -500,7 +548,7 @@ func Run(raw json.RawMessage) (any, error) {
 		if bs == nil {
 			bs = []int{}
 		}
-		o.Muts = append(o.Muts, MutOut{K: m.K, At: at, N: m.N, Bytes: bs, X: m.X, Ro: m.Ro, Res: res})
+		o.Muts = append(o.Muts, MutOut{K: m.K, At: at, N: m.N, Bytes: bs, X: m.X, Op: m.Op, Ro: m.Ro, Res: res})
 	}
 	return o, nil
 }
